@@ -92,6 +92,13 @@ theorem cut_at_own_limit (c : Cfg) (k : Nat) (ws : List Wait) (j n : Nat) (h : (
           rw [hr]
     | hung => simp [hr] at h
 
+/-- The printed table (`timeouts table`, which the source-extracted table is compared with on every run) lists every stage. -/
+theorem all_stages_listed : (∀ st : ServerStage, st ∈ allServerStages) ∧ (∀ st : RelayStage, st ∈ allRelayStages) := by
+  constructor <;> intro st <;> cases st <;> simp [allServerStages, allRelayStages]
+
+theorem other_every_block_scoped (st : OtherStage) : otherScope st ≠ .unscoped := by
+  cases st <;> simp [otherScope]
+
 /-- **Every blocking step of a server session has a scope**: the wait for a command, the DATA
     phase, the wait for an AUTH response, both TLS handshakes, and the closing of the session. -/
 theorem server_every_block_scoped (st : ServerStage) : serverScope st ≠ .unscoped := by
